@@ -147,7 +147,7 @@ PIXEL_ATTRS = ['opacity', 'transparent_color', 'transparent_color_tolerance', 'c
 @rule('C14.c', floor=7)
 def c14c(ctx):
     fn = ctx.fn(SW + ':WMSSource._is_compatible')
-    tab = ctx.rows(table(fn.node.body, ret_kind))
+    tab = ctx.rows(table(fn.node.body, ret_kind, bool_returns=True))
     A = tab.atoms
     for attr in PIXEL_ATTRS:
         if attr == 'opacity':
